@@ -9,6 +9,7 @@ import (
 	"github.com/hashicorp/nodeenrollment"
 	"github.com/hashicorp/nodeenrollment/types"
 	"github.com/hashicorp/nodeenrollment/zzverif/vf"
+	"github.com/hashicorp/nodeenrollment/zzverif/vfs"
 )
 
 func init() { VfHarnesses["VerifC09NodeLemma"] = VerifC09NodeLemma }
@@ -18,7 +19,7 @@ func init() { VfHarnesses["VerifC09NodeLemma"] = VerifC09NodeLemma }
 // server currently holds.
 func VerifC09NodeLemma() {
 	ctx := context.Background()
-	st := &vfStorage{}
+	st := &vfs.Storage{}
 	life := vf.Dur("lifetime", 3600000000000, 400000000000000000)
 	nb := vf.Dur("nbskew", -1000000000000000, 0)
 	na := vf.Dur("naskew", 0, 1000000000000000)
